@@ -49,6 +49,10 @@ bool one_rectangle(Ctx& X, int r, int cN, const std::vector<double>& vals, int t
     case 1: ok = check_rectangle<double, std::size_t>(X, r, cN, vals, E, txt); c.count("types.double_size_t"); break;
     case 2: ok = check_rectangle<float, int>(X, r, cN, vals, E, txt); c.count("types.float_int"); break;
     case 3: ok = check_rectangle<int, unsigned>(X, r, cN, vals, E, txt); c.count("types.int_unsigned"); break;
+    case 5:  // an Index type narrower than int (documented requirement: large enough for the size of the input); vertex grid <= 65535
+      if ((size_t)(r + 1) * (size_t)(cN + 1) < 30000) { ok = check_rectangle<double, unsigned short>(X, r, cN, vals, E, txt); c.count("types.double_unsigned_short"); }
+      else { ok = check_rectangle<double, unsigned>(X, r, cN, vals, E, txt); c.count("types.double_unsigned"); }
+      break;
     default: ok = check_rectangle<double, long>(X, r, cN, vals, E, txt); c.count("types.double_long"); break;
   }
   c.count("inputs.rect");
@@ -82,7 +86,7 @@ void rect_case(vh::Case& c, int kind) {
   const size_t n = (size_t)rows * cols;
   bool nontriv_any = false; uint64_t h = vh::hash_str("rect");
   for (int rep = 0; rep < reps; ++rep) {
-    int tcombo = (int)r.below(5);
+    int tcombo = (int)r.below(6);
     long levels = (kind == 2) ? r.range(2, 5) : (kind == 3) ? r.range(1, 9) : pick_levels(r, n);
     std::string how;
     std::vector<double> vals = random_values(r, n, levels, tcombo == 3, how);
